@@ -158,7 +158,8 @@ class SteadyDetonationReactionZone(ExactSolver):
 
         tsolution = self.run_tvec(tvec)
 
-        xsolution = dict()
+        # the position field comes first, as in every other solver
+        xsolution = dict(position=xvec)
 
         varnames = ['pressure','velocity','density','sound_speed',
                         'reaction_progress','position_relative']
